@@ -177,7 +177,8 @@ class C09(Prop):
         out = [rec]
         # the same (already used, uncompiled) circuit after its rotation gates were given new generators -- by plain
         # attribute assignment, as the library's own constructors do, or by set_generator: it is then the new program
-        if mode == "plain" and variant == "orig" and any(it["k"] == "gen" for it in items):
+        # In the compiled modes the circuit is compiled again after the change (documented: compiled maps are snapshots).
+        if variant == "orig" and any(it["k"] == "gen" for it in items) and not scn.get("wide"):
             items2 = []
             rec2 = {"op": "circuit", "n": n, "cls": cls, "mode": mode, "variant": "regen", "probes": []}
             try:
@@ -188,12 +189,31 @@ class C09(Prop):
                         items2.append(it2)
                         w = be.p_pauli(g.generator)          # (condensed to the gate's own qubits by some constructors)
                         newg = be.pauli(w[:-1] + [(w[-1] + 2) % 4])
-                        if j % 2 == 0:
+                        way = (j + len(items)) % 3
+                        if way == 0:
                             g.generator = newg
-                        else:
+                        elif way == 1:
                             g.set_generator(newg)
+                        else:
+                            # the generator object itself is changed in place through its public methods: a rotation by an
+                            # anticommuting single-letter operator and back by another one, ending at minus the generator
+                            # (read back from the object: no algebra here)
+                            q = next(k for k, l in enumerate(w[:-1]) if l)
+                            a = [0] * (len(w) - 1) + [0]
+                            a[q] = 1 if w[q] != 1 else 3
+                            g.generator.rotate_by(be.pauli(a))
+                            g.generator.rotate_by(be.pauli(a))
+                            w2 = be.p_pauli(g.generator)
+                            if w2 != w[:-1] + [(w[-1] + 2) % 4]:
+                                g.generator = newg
                     else:
                         items2.append(it)
+                if mode == "layers":
+                    for layer in c.layers_forward():
+                        if hasattr(layer, "compile"):
+                            layer.compile(n)
+                elif mode == "circuit":
+                    c.compile()
                 rec2["prog"] = [circ.wire_item(it) for it in items2]
                 gens, lst, st = probes_for(n)
                 for kind, ins in (("list", lst), ("state", st)):
